@@ -77,26 +77,23 @@ pub fn random_hash_bytes(rng: &mut Rng, vi: usize) -> Vec<u8> {
     }
 }
 
+/// The canonical text of the hash with these bytes, written out here (not through the library, so that the
+/// generated inputs do not depend on the library under test or on its build configuration): header bytes
+/// nibble-swapped, body bytes plain, upper-case digits.
 pub fn hash_text(vi: usize, bin: &[u8], with_prefix: bool) -> Vec<u8> {
-    with_variant!(vi, T => {
-        let h = T::try_from(bin);
-        match h {
-            Ok(h) => {
-                let mut buf = vec![0u8; variant_str_len(vi)];
-                let p = if with_prefix { HexStringPrefix::WithVersion } else { HexStringPrefix::Empty };
-                let n = h.store_into_str_bytes(&mut buf, p).unwrap();
-                buf.truncate(n);
-                buf
-            }
-            Err(_) => {
-                // strict parser may reject random bytes: fall back to an all-zero hash text
-                let n = variant_str_len(vi) - if with_prefix { 0 } else { 2 };
-                let mut v = vec![b'0'; n];
-                if with_prefix { v[0] = b'T'; v[1] = b'1'; }
-                v
-            }
+    let cs = VARIANT_CKSUM[vi];
+    let hexd = b"0123456789ABCDEF";
+    let mut v = if with_prefix { b"T1".to_vec() } else { Vec::new() };
+    for (i, &b) in bin.iter().enumerate() {
+        if i < cs + 2 {
+            v.push(hexd[(b & 15) as usize]);
+            v.push(hexd[(b >> 4) as usize]);
+        } else {
+            v.push(hexd[(b >> 4) as usize]);
+            v.push(hexd[(b & 15) as usize]);
         }
-    })
+    }
+    v
 }
 
 pub fn stream_parse(out: &mut impl Write, seed: u64, budget: usize) {
